@@ -552,8 +552,8 @@ def invCheck (P : PrimeSet) (k j : Nat) : Bool :=
     let bs := if doReduce then bsA else b
     let hb := (bs + 1) / 2
     let revM := ms.reverse ++ [m0]
-    !(decide (hb + P.logQ + 1 > 64)) && invSchedOK q r revM (2 ^ 64 - 1) && decide (invChainOut q r revM (2 ^ 64 - 1) < 2 ^ 64) &&
-    decide (maskOf hb = 2 ^ hb - 1) && decide (hb ≤ 32) && decide (redBound r doReduce (invChainOut q r revM (2 ^ 64 - 1)) < 2 ^ (2 * hb))
+    !(decide (hb + P.logQ + 1 > 64)) && invSchedOK q r revM (2 ^ 64 - 1) && decide ((invChainOut q r revM (2 ^ 64 - 1)).1 < 2 ^ 64) &&
+    decide (maskOf hb = 2 ^ hb - 1) && decide (hb ≤ 32) && decide (redBound r doReduce (invChainOut q r revM (2 ^ 64 - 1)).1 < 2 ^ (2 * hb))
   | _ => false
 
 /-- closed facts about lane `k` of a prime set used by the inverse table -/
